@@ -1,6 +1,7 @@
 package main
 
 import (
+	"runtime/pprof"
 	"flag"
 	"fmt"
 	"os"
@@ -40,6 +41,11 @@ func main() {
 		os.Exit(2)
 	}
 	defer cleanupScratch()
+	if pf := os.Getenv("GV_CPUPROFILE"); pf != "" {
+		f, _ := os.Create(pf)
+		pprof.StartCPUProfile(f)
+		defer pprof.StopCPUProfile()
+	}
 	switch os.Args[1] {
 	case "dump":
 		ld, err := LoadRepo()
@@ -70,11 +76,68 @@ func main() {
 				fmt.Println(k)
 			}
 		}
+	case "frame":
+		ld, err := LoadRepo()
+		if err != nil {
+			fmt.Fprintln(os.Stderr, err)
+			os.Exit(2)
+		}
+		fa := NewFrameAnalysis(ld)
+		for _, a := range os.Args[2:] {
+			fn := ld.Funcs[a]
+			if fn == nil {
+				fmt.Println("no function", a)
+				continue
+			}
+			sum := fa.Summarise(fn, nil)
+			fmt.Println("==", a, "ret", sum.Ret.String())
+			var lines []string
+			for k, w := range sum.Writes {
+				lines = append(lines, fmt.Sprintf("  write %-40s %-30s %s", k.Field, objName(fn, k.Obj), strings.Join(w.Chain, " > ")))
+			}
+			for k, w := range sum.Links {
+				lines = append(lines, fmt.Sprintf("  link  %-40s %s <- %s   %s", k.Field, objName(fn, k.To), objName(fn, k.From), strings.Join(w.Chain, " > ")))
+			}
+			for site, mm := range sum.SiteContent {
+				for f, c := range mm {
+					lines = append(lines, fmt.Sprintf("  site %s@%s .%-30s %s", site.Name(), ld.posString(site.Pos()), f, c.String()))
+				}
+			}
+			for k, w := range sum.Unknowns {
+				lines = append(lines, "  unknown "+k+" via "+strings.Join(w.Chain, " > "))
+			}
+			sort.Strings(lines)
+			for _, l := range lines {
+				fmt.Println(l)
+			}
+			if os.Getenv("GV_FRAME_ALL") != "" {
+				for k, s2 := range fa.sums {
+					if !strings.Contains(funcKey(k.fn), os.Getenv("GV_FRAME_ALL")) {
+						continue
+					}
+					fmt.Println("--", funcKey(k.fn), "ctx", k.ctx, "ret", s2.Ret.String())
+					var ls []string
+					for site, mm := range s2.SiteContent {
+						for f, c := range mm {
+							ls = append(ls, fmt.Sprintf("     site %s@%s .%-30s %s", site.Name(), ld.posString(site.Pos()), f, c.String()))
+						}
+					}
+					for lk := range s2.Links {
+						ls = append(ls, fmt.Sprintf("     link %-30s %s <- %s", lk.Field, objName(k.fn, lk.To), objName(k.fn, lk.From)))
+					}
+					sort.Strings(ls)
+					for _, l := range ls {
+						fmt.Println(l)
+					}
+				}
+			}
+		}
 	case "vc":
 		cmdVC(os.Args[2:])
 	case "check":
 		code := cmdCheck(os.Args[2:])
 		cleanupScratch()
+		pprof.StopCPUProfile()
 		os.Exit(code)
 	case "replay":
 		code := cmdReplay(os.Args[2:])
